@@ -94,8 +94,8 @@ class CallMixin:
             d = _static(base.cls, name)
             if isinstance(d, property):
                 return self.call_function(st, d.fget, [base], {}, node, selfcls=base.cls)
-            if name in base.attrs:
-                return [(st, base.attrs[name])]
+            if name in self.oattrs(st, base):
+                return [(st, self.oattrs(st, base)[name])]
             if d is None:
                 return self.raising(st, None, [(AttributeError, TRUE)], node)[:-1]
             if inspect.isfunction(d):
@@ -126,8 +126,8 @@ class CallMixin:
                 return [(st, PyC(d))]
             if d is not None and (inspect.ismethoddescriptor(d)) and name not in self.instance_attrs(v.cls):
                 return [(st, BM(v, name))]
-        if v.t in self.escaped_objs and name in self.escaped_objs[v.t].attrs:
-            return [(st, self.escaped_objs[v.t].attrs[name])]
+        if v.t in self.escaped_objs and name in self.oattrs(st, self.escaped_objs[v.t]):
+            return [(st, self.oattrs(st, self.escaped_objs[v.t])[name])]
         t = f"({self.cur_attr(st, name)} {asV(v)})"
         hint = self.attr_kinds.get(name)
         src = None
@@ -322,6 +322,14 @@ class CallMixin:
         if c.trusted:
             self.trusted_used.add(f"assumed contract: {c.name} ({c.note})" if c.note else f"assumed contract: {c.name}")
         sp = SpecEval(self, env, glob=fi.glob)
+        saved_spec_state = self.spec_state
+        self.spec_state = st
+        try:
+            return self._call_by_contract(st, c, fn, env, sp, node)
+        finally:
+            self.spec_state = saved_spec_state
+
+    def _call_by_contract(self, st, c, fn, env, sp, node):
         # precondition
         pre = sp.compile_bool(c.requires)
         self.obl("pre", node, st, pre, detail=f"requires of {c.name}: {c.requires}")
@@ -371,11 +379,12 @@ class CallMixin:
         selfv = env.get("self")
         if isinstance(selfv, SymObj) and c.ghost.get("sets"):
             for a in c.ghost["sets"]:
-                selfv.attrs[a] = self.fresh_val("attr_" + a)
+                self.oset(st, selfv, a, self.fresh_val("attr_" + a))
         if c.result_cls:
             rcls = self.spec_names[c.result_cls]
         else:
             rcls = None
+        self.spec_state = st
         res = self.fresh_val("ret", kind=c.result_kind, cls=rcls)
         if c.ghost.get("result_fresh"):
             res.fresh = TRUE
